@@ -1,4 +1,6 @@
 """C20 — network streaming delivers the exact sequence, then ends, for every interleaving (lock-step REQ/REP model)."""
+import dataclasses
+import enum
 import pickle
 import numpy as np
 import sys
@@ -240,8 +242,12 @@ def judge(ctx, elems_desc, elems, res, case, model_line):
     if res['errors'] or any(l[0] == 'violation' for l in res['log']):
         ctx.fail('network-socket-alternation-or-error', 'errors %s, socket log %s' % (res['errors'], [l for l in res['log'] if l[0] == 'violation']), case)
         return
-    ok = len(res['received']) == len(elems) and all(pipelib.same_value(a, b) or pickle.dumps(a) == pickle.dumps(b)
-                                                     for a, b in zip(res['received'], elems))
+    def same(a, b):
+        try:
+            return type(a) is type(b) and (pipelib.same_value(a, b) or pickle.dumps(a) == pickle.dumps(b))
+        except Exception:  # noqa
+            return False
+    ok = len(res['received']) == len(elems) and all(same(a, b) for a, b in zip(res['received'], elems))
     if not ok or not res['receiver_ended'] or not res['sender_returned']:
         ctx.fail('network-stream-not-delivered', 'sent %s, received %d elements (%s), receiver ended=%s, sender returned=%s' % (
             elems_desc, len(res['received']), [repr(x)[:20] for x in res['received']], res['receiver_ended'], res['sender_returned']), case)
@@ -264,7 +270,20 @@ def judge(ctx, elems_desc, elems, res, case, model_line):
             ctx.disagree('network-final-state-equals-model', case, 'delivered %d' % len(elems), model_line[:300])
 
 
-ELEMS = [None, (None, None), (0, None), (None, 1), 0, '', [], b'next', ('u', 1), {'status': None}, 1.5, [None], False,
+@dataclasses.dataclass
+class Reading:
+    """a class of the running program (when the check runs, this module is __main__): instances arrive as instances of THIS class"""
+    channel: int
+    value: float
+
+
+class Colour(enum.Enum):
+    RED = 1
+    BLUE = 2
+
+
+ELEMS = [Reading(3, 2.5), Colour.BLUE, Reading,
+         None, (None, None), (0, None), (None, 1), 0, '', [], b'next', ('u', 1), {'status': None}, 1.5, [None], False,
          # exception OBJECTS are ordinary elements (results collected with return_exceptions-style code): handed on, never raised
          ValueError('as an element'), KeyError(1), OSError(2, 'msg'), StopIteration('as an element')]
 
